@@ -213,6 +213,62 @@ theorem parse_numeric3 (a b y : Nat) (s1 s2 : Char) (h1 : isDateSep s1 = true) (
   rw [val_pad2 a ha, val_pad2 b hb, val_pad4 y hy]
   simp [parseTokens, parseTime, mk, h1, h2]
 
+/-! ### `str.strip()` -/
+
+theorem dropWhile_ws_append (ws rest : List Char) (h : ∀ c ∈ ws, isWs c = true) :
+    (ws ++ rest).dropWhile isWs = rest.dropWhile isWs := by
+  induction ws with
+  | nil => rfl
+  | cons c cs ih =>
+    have hc : isWs c = true := h c (by simp)
+    simp only [List.cons_append, List.dropWhile_cons, hc, if_true]
+    exact ih (fun x hx => h x (by simp [hx]))
+
+theorem dropWhile_ws_cons (c : Char) (rest : List Char) (h : isWs c = false) : (c :: rest).dropWhile isWs = c :: rest := by
+  simp [h]
+
+/-- white space around a text that starts and ends with other characters is removed, nothing else -/
+theorem strip_wrapped (ws1 ws2 mid : List Char) (c0 c1 : Char) (h1 : ∀ c ∈ ws1, isWs c = true) (h2 : ∀ c ∈ ws2, isWs c = true)
+    (n0 : isWs c0 = false) (n1 : isWs c1 = false) :
+    strip (ws1 ++ (c0 :: (mid ++ [c1])) ++ ws2) = c0 :: (mid ++ [c1]) := by
+  unfold strip
+  rw [List.append_assoc, dropWhile_ws_append _ _ h1]
+  rw [show (c0 :: (mid ++ [c1])) ++ ws2 = c0 :: (mid ++ [c1] ++ ws2) by simp]
+  rw [dropWhile_ws_cons _ _ n0]
+  have hr : (c0 :: (mid ++ [c1] ++ ws2)).reverse = ws2.reverse ++ (c1 :: (mid.reverse ++ [c0])) := by simp
+  rw [hr, dropWhile_ws_append _ _ (fun c hc => h2 c (by simpa using hc)), dropWhile_ws_cons _ _ n1]
+  simp
+
+theorem strip_id (mid : List Char) (c0 c1 : Char) (n0 : isWs c0 = false) (n1 : isWs c1 = false) :
+    strip (c0 :: (mid ++ [c1])) = c0 :: (mid ++ [c1]) := by
+  have := strip_wrapped [] [] mid c0 c1 (by simp) (by simp) n0 n1
+  simpa using this
+
+theorem ofNat_digit_ws : ∀ k, k < 10 → isWs (Char.ofNat (48 + k)) = false := by decide
+theorem digit_not_ws (n : Nat) : isWs (digit n) = false := ofNat_digit_ws (n % 10) (Nat.mod_lt _ (by omega))
+
+/-- the text `dt2str` writes starts and ends with a digit: `strip` leaves it alone -/
+theorem strip_dt2strCs (t : Int) : strip (dt2strCs t) = dt2strCs t := by
+  unfold dt2strCs
+  simp only []
+  split
+  · have e : ∀ (y m d : Nat), pad4 y ++ pad2 m ++ pad2 d
+        = digit (y / 1000) :: ([digit (y / 100), digit (y / 10), digit y, digit (m / 10), digit m, digit (d / 10)] ++ [digit d]) := by
+      intros; rfl
+    rw [e]; exact strip_id _ _ _ (digit_not_ws _) (digit_not_ws _)
+  · split
+    · have e : ∀ (y m d h mi s : Nat), pad4 y ++ '-' :: pad2 m ++ '-' :: pad2 d ++ 'T' :: pad2 h ++ ':' :: pad2 mi ++ ':' :: pad2 s
+          = digit (y / 1000) :: ([digit (y / 100), digit (y / 10), digit y, '-', digit (m / 10), digit m, '-', digit (d / 10), digit d, 'T',
+              digit (h / 10), digit h, ':', digit (mi / 10), digit mi, ':', digit (s / 10)] ++ [digit s]) := by
+        intros; rfl
+      rw [e]; exact strip_id _ _ _ (digit_not_ws _) (digit_not_ws _)
+    · have e : ∀ (y m d h mi s us : Nat), pad4 y ++ '-' :: pad2 m ++ '-' :: pad2 d ++ 'T' :: pad2 h ++ ':' :: pad2 mi ++ ':' :: pad2 s ++ '.' :: pad6 us
+          = digit (y / 1000) :: ([digit (y / 100), digit (y / 10), digit y, '-', digit (m / 10), digit m, '-', digit (d / 10), digit d, 'T',
+              digit (h / 10), digit h, ':', digit (mi / 10), digit mi, ':', digit (s / 10), digit s, '.', digit (us / 100000),
+              digit (us / 10000), digit (us / 1000), digit (us / 100), digit (us / 10)] ++ [digit us]) := by
+        intros; rfl
+      rw [e]; exact strip_id _ _ _ (digit_not_ws _) (digit_not_ws _)
+
 theorem mkDateChecked_cases (y m d : Int) : (∃ t, mkDateChecked y m d = .ok t) ∨ mkDateChecked y m d = .error .value := by
   unfold mkDateChecked; split
   · exact Or.inl ⟨_, rfl⟩
